@@ -178,6 +178,8 @@ def whyNot (d : Dump) : String :=
     else if !distinct t.ids then "shared-page"
     else if t.ids.contains 0 then "page0"
     else if !linksOk d 0 (t.leafList.map (·.1)) then "links"
+    else if !levelsLinked d t then "interior-links"
+    else if !t.noEmptyLeaf then "empty-leaf"
     else "fuel"
 
 structure St where
